@@ -24,7 +24,7 @@ from engines import genome
 def gen_probs(r, w):
 	cols = []
 	for _ in range(w):
-		s = r.wchoice(["dirichlet", "grid", "sci"], [4, 2, 1])
+		s = r.wchoice(["dirichlet", "grid", "sci", "coarse", "counts"], [4, 2, 1, 1, 1])
 		if s == "dirichlet":
 			g = [r._r.gammavariate(0.7, 1.0) + 1e-9 for _ in range(4)]
 			t = sum(g)
@@ -34,6 +34,11 @@ def gen_probs(r, w):
 			for _ in range(20):
 				cnt[r.randint(0, 3)] += 1
 			col = [c / 20 for c in cnt]
+		elif s == "coarse":
+			col = r.choice([[0.33, 0.33, 0.33, 0.0], [0.97, 0.0, 0.0, 0.0], [0.3, 0.3, 0.3, 0.3],
+				[0.25, 0.25, 0.25, 0.24], [0.5, 0.26, 0.13, 0.13]])
+		elif s == "counts":
+			col = [float(r.randint(0, 20)) for _ in range(4)]
 		else:
 			col = [1e-7, 2.5e-5, 0.5, 0.4999749]
 		cols.append(col)
@@ -246,7 +251,8 @@ class C16(runner.Check):
 				"dict"]), "insig": b.choice(["bigwig", "dict"]), "loci": [b.choice(["bed",
 				"df"]) for _ in sets], "fasta_width": b.choice([7, 50, 60, 10000]),
 				"extra_cols": b.chance(0.4), "chroms_as": b.choice(["list", "tuple"]),
-				"verbose": b.chance(0.15)})
+				"verbose": b.chance(0.15), "bed_crlf": b.chance(0.2),
+				"bed_trailing_blank": b.chance(0.2)})
 		return {"leg": "loci", "seed": seed, "chroms": chroms, "signals": signals,
 			"in_signals": in_signals, "sets": sets, "kw": kw, "combos": combos,
 			"single_set_unwrapped": len(sets) == 1 and r.chance(0.5)}
@@ -550,7 +556,8 @@ class C16(runner.Check):
 						for k, (c_, s_, e_) in enumerate(rows):
 							f.write("%s\t%d\t%d\tpeak%d\t%d\t+\n" % (c_, s_, e_, k, 100 + k))
 				else:
-					genome.write_bed(p, rows)
+					genome.write_bed(p, rows, newline="\r\n" if combo.get("bed_crlf") else "\n",
+						trailing_blank=bool(combo.get("bed_trailing_blank")))
 				paths.append(p)
 				loci.append(p)
 			else:
